@@ -133,6 +133,9 @@ def oracle(ctx, budget=1, replay=None, hints=None):
     progs.append(P(['G28', 'G1 X10 Y5 F3000', 'G1 X5 Y5 E1.2 F1200', 'G1 E0.4 F2400', 'G1 X15 Y15 F3000', 'G1 E1.2 F2400', 'G92 E0', 'G1 X16 Y16 E0.8 F1200',
                     'G1 X30 Y20 F3000', 'G1 X40 Y20 E1.2 F1200', 'G1 E0.4 F2400', 'G1 X30 Y30 F3000', 'G1 E1.2 F2400', 'G1 X40 Y30 E1.6 F1200']))
     progs.append(P(['G28', 'G20', 'G1 X0.2 Y0.2 E0.0123456789 F30', 'G1 E-0.0270333 F40', 'G1 X0.6 Y0.6', 'G1 E0.0123456789', 'G1 X2 Y2', 'G1 X2.1 Y2 E0.02']))
+    # a retraction dropped because the filament is still retracted (recovery owed), with a G92 E offset / in inches: the lone G92 E sent instead
+    progs.append(P(['G28', 'G1 X5 Y5 E3 F3000', 'G92 E0', 'G1 X6 Y5 E1', 'G1 E0 F1800', 'G1 X15 Y15', 'G1 E1', 'G1 X30 Y30', 'G1 E0', 'G1 X40 Y40', 'G1 E1', 'G1 X41 Y40 E1.5']))
+    progs.append(P(['G28', 'G20', 'G1 X0.2 Y0.2 E0.1 F100', 'G1 E0.06 F70', 'G1 X0.6 Y0.6', 'G1 E0.1', 'G1 X1.2 Y1.2', 'G1 E0.06', 'G1 X1.6 Y1.6', 'G1 E0.1', 'G1 X1.7 Y1.6 E0.12']))
     # feed rate given in one unit, region left in the other without a new F word; and an F word on the leaving move itself
     progs.append(P(['G28', 'G1 X5 Y5 Z0.3 F3000', 'G20', 'G1 X0.6 Y0.6', 'G1 Z0.02', 'G1 X2 Y2', 'G1 X2.1 Y2 E0.02']))
     progs.append(P(['G28', 'G20', 'G1 X0.2 Y0.2 Z0.01 F100', 'G21', 'G1 X15 Y15', 'G1 Z0.6', 'G1 X30 Y30', 'G1 X31 Y30 E1']))
@@ -182,6 +185,10 @@ def oracle(ctx, budget=1, replay=None, hints=None):
                 ew = [(o, reader.read(o)) for o in st.outs if isinstance(o, str) and o not in scripts]
                 ew = [(o, c.get('E')) for (o, c) in ew if c is not None and c.code in ('G0', 'G1', 'G92') and c.get('E') is not None]
                 expect, how = (st.EL1, 'after the step') if ci.get('E') is None else (None, '')
+                if ci.get('E') is not None and st.ev[1] not in st.outs and len(ew) == 1 and reader.read(ew[0][0]).code == 'G92':
+                    # the file's E command is dropped and a lone G92 E is sent in its place (a retraction while the filament is still retracted):
+                    # it tells the printer the E position the file is at now
+                    expect, how = st.EL1, 'after the dropped command'
                 if ew and ew[-1][0] != st.ev[1] and expect is not None:
                     o, ev = ew[-1]
                     nval += 1
